@@ -126,6 +126,9 @@ def case_st(draw):
                              "marginal": draw(st.sampled_from(["unweighted_base", "weighted_base",
                                                                "table_proportion"]))}
                 sc["row_only_sort"] = True
+            if order and order.get("type") == "opposing_insertion" and \
+                    ovar["type"] != "cat" and order.get("insertion_id") in list(opp[1]):
+                sc["row_only_sort"] = True   # names an item of the opposing array dimension
             if order:
                 tx.setdefault(name, {})["order"] = order
         elements, prune = draw(xforms.hide_prune_st(refs))
